@@ -1,6 +1,6 @@
 (* Props/C05.v -- no leaked workers, threads or signal state on any exit path. *)
 From Coq Require Import List Arith Lia Bool String.
-From Mpv Require Import GenObserve Signals SignalProofs.
+From Mpv Require Import GenObserve Signals SignalProofs Routes RouteProofs.
 Import ListNotations.
 
 (* (1) shutdown ledger (effects read off pool.terminate / _stop_handler_threads / __exit__ / the exception
@@ -38,3 +38,25 @@ Print Assumptions C05_source_facts.
 Example C05_example :
   clean (fold_left lstep [OStart 3; OCallFails; OStart 2; OStopJoin true; OCallInterrupted; OStart 4; OExit] (mkL 0 0 false)).
 Proof. apply (clean_after_every_exit_path [OStart 3; OCallFails; OStart 2; OStopJoin true; OCallInterrupted; OStart 4] OExit (mkL 0 0 false)). auto. Qed.
+
+(* the try structure of imap_unordered (generated: every statement with the constructs around it, every try block
+   with its handlers) under Python's propagation rule: a KeyboardInterrupt raised at ANY statement inside the outer
+   try -- every point of the call at which a worker or helper thread of this call can exist -- or inside anything
+   such a statement calls, runs a handler that shuts the pool down (terminate / _handle_exception, unconditionally)
+   before the exception leaves the call; workers are started and joined only from such statements.  The positions
+   outside (prologue, the outer handler itself, the finally clean-up) are listed in the evidence file. *)
+Theorem C05_every_interrupt_point_shuts_down :
+  forall p, In p imap_unordered_positions -> in_outer_try p = true -> shut_down_before_leaving p = true.
+Proof. exact every_interrupt_point_shuts_down. Qed.
+Print Assumptions C05_every_interrupt_point_shuts_down.
+
+Theorem C05_workers_started_only_under_protection :
+  forall p, In p imap_unordered_positions -> starts_workers p = true -> in_outer_try p = true.
+Proof. exact workers_started_only_under_protection. Qed.
+Print Assumptions C05_workers_started_only_under_protection.
+
+Theorem C05_route_facts :
+  every_protected_position_shuts_down = true /\ workers_only_touched_under_protection = true /\
+  handle_exception_shuts_down = true.
+Proof. exact (conj protected_spec (conj touched_spec handle_exception_spec)). Qed.
+Print Assumptions C05_route_facts.
